@@ -83,4 +83,27 @@ def rangeHoldsOn (ms : List Member) (ps : List Part) (a : Asg) (ts ids : List Na
 def rrHoldsOn (ms : List Member) (ps : List Part) (a : Asg) (ts ids : List Nat) : Bool :=
   coverBalanceOn ms ps a ts ids && ts.all fun t => decide (RRShapeAt ms ps a t)
 
+/-! ## RackAffinity -/
+
+/-- the listed partitions of topic `t` whose leader is in rack `z` -/
+def ledIn (ps : List Part) (t z : Nat) : List Int :=
+  (ps.filter (fun p => p.topic == t && p.zone == z)).map (·.id)
+
+/-- the subscribers of `t` that run in rack `z` -/
+def inRack (ms : List Member) (t z : Nat) : List Member := (subscribers ms t).filter (fun m => m.zone == z)
+
+/-- number of partitions led in rack `z` that are placed on members of rack `z` -/
+def placedInRack (ms : List Member) (ps : List Part) (a : Asg) (t z : Nat) : Nat :=
+  (((inRack ms t z).flatMap (fun m => a t m.id)).filter (fun x => (ledIn ps t z).contains x)).length
+
+/-- for rack `z`: at least min(partitions led in `z`, members in `z` × ⌊P/M⌋) partitions stay in the rack -/
+def RackBoundAt (ms : List Member) (ps : List Part) (a : Asg) (t z : Nat) : Prop :=
+  min (ledIn ps t z).length ((inRack ms t z).length * ((partsOf t ps).length / (subscribers ms t).length))
+    ≤ placedInRack ms ps a t z
+
+instance (ms ps a t z) : Decidable (RackBoundAt ms ps a t z) := by unfold RackBoundAt; infer_instance
+
+def rackHoldsOn (ms : List Member) (ps : List Part) (a : Asg) (ts ids zs : List Nat) : Bool :=
+  coverBalanceOn ms ps a ts ids && ts.all fun t => zs.all fun z => decide (RackBoundAt ms ps a t z)
+
 end KV.Spec.GroupAssign
